@@ -55,4 +55,5 @@ Definition dispatch (cmd : string) (arg : sexp) : sexp :=
   else if String.eqb cmd "c12.audit" then MathFuncs.audit MathTable.math_env MathTable.documented
   else if String.eqb cmd "c08.resolve" then Binding.run_resolve arg
   else if String.eqb cmd "c08.rewrite" then Binding.run_rewrite arg
+  else if String.eqb cmd "c01.denote" then FragTranslate.run_denote arg
   else s_tag "unknown-command" [SAtom cmd].
